@@ -522,6 +522,33 @@ func adversarialRenaming(c Case, r *Rng) map[string]string {
 		long += "x"
 	}
 	pool = append(pool, long, long+"y")
+	if r.Bool(35) {
+		// names that collide when two of them are glued together with a separator ("web"+"-"+"api-db" = "web-api"+"-"+"db"):
+		// all words over a small alphabet of tokens joined by one separator
+		sep := []string{"-", "_", "->", " ", ":", ",", "/", ""}[r.Intn(8)]
+		tok := []string{"a", "b", "c"}
+		pool = pool[:0]
+		for _, x := range tok {
+			pool = append(pool, x)
+			for _, y := range tok {
+				pool = append(pool, x+sep+y)
+				for _, z := range tok {
+					pool = append(pool, x+sep+y+sep+z)
+				}
+			}
+		}
+		if sep == "" { // distinct words only
+			seen := map[string]bool{}
+			var q []string
+			for _, w := range pool {
+				if !seen[w] {
+					seen[w] = true
+					q = append(q, w)
+				}
+			}
+			pool = q
+		}
+	}
 	p := r.Perm(len(pool))
 	rho := map[string]string{}
 	for i, id := range ids {
